@@ -45,6 +45,7 @@ def run(prog: Program, rep, tier: str) -> None:
     dispatch(prog, rep)
     standard_solver(prog, rep)
     asymmetric_structure(prog, rep)
+    index_sets(prog, rep)
     # the active-set estimate must be the same function in the scaled and the unscaled residual (lambda * ...): C13's sibling rules
     from . import c13
     from .c01 import _SubReport
@@ -609,3 +610,65 @@ def asymmetric_structure(prog: Program, rep) -> None:
     ok = base is not None and got.get(b2t) == (base, "-self.m:") and got.get(b0) == (f"{base}[:self.n]", "self.active_set") and \
         got.get(b1) == (f"{base}[:self.n]", "np.logical_not(self.active_set)")
     rep.check(ok, "asymmetric-blocks", cr.qualname, "rhs", f"the right-hand side carries b0 on the active rows, b1 on the inactive ones and b2t on the constraint rows (found {got})", cr.loc())
+
+
+def index_sets(prog: Program, rep) -> None:
+    """The scaled formulations order the rows of their reduced system by index sets derived from the active set, and the
+    right-hand side (ScaledStepSolver.initial_rhs / back-substitution) is ordered by index sets computed independently.  They
+    agree only if every such set is the ASCENDING enumeration of the mask (np.where / np.nonzero / np.flatnonzero of the mask or
+    its negation) - or the boolean mask itself.  Any other derivation from the active set is either rejected (unstable argsort)
+    or not understood (analysis error)."""
+    MASKS = {"self.active_set", "np.logical_not(self.active_set)", "~self.active_set", "self._active_set", "np.logical_not(self._active_set)",
+             "active_set", "np.logical_not(active_set)", "~active_set"}
+
+    def canonical(e: ast.AST) -> bool:
+        t = U(e)
+        if t in MASKS:
+            return True
+        if isinstance(e, ast.Subscript) and const_value(e.slice) == 0 and np_call(e.value, "where", "nonzero") and len(e.value.args) == 1 and U(e.value.args[0]) in MASKS:
+            return True
+        if np_call(e, "flatnonzero") and len(e.args) == 1 and U(e.args[0]) in MASKS:
+            return True
+        return False
+
+    n = 0
+    ss = prog.cls(SS)
+    classes = [c for c in prog.all_subclasses(ss, include_self=True) if prog.in_scope(c)]
+    for c in classes:
+        for m in c.methods.values():
+            if m.name in ("__init__", "update_active_set", "active_set", "overwrite_active_rows", "compute_rhs", "initial_sol"):
+                continue   # mask-valued uses only; decided by the asymmetric-structure rules
+            ff = facts_for(m)
+            for s in ff.order:
+                st = s.stmt
+                if not isinstance(st, ast.Assign) or len(st.targets) != 1:
+                    continue
+                tgs = st.targets[0].elts if isinstance(st.targets[0], ast.Tuple) else [st.targets[0]]
+                if not all(isinstance(t, ast.Name) for t in tgs):
+                    continue
+                v = ff.resolved(st, st.value)
+                vals = v.elts if isinstance(v, ast.Tuple) and len(v.elts) == len(tgs) else ([v] if len(tgs) == 1 else [])
+                for t, val in zip(tgs, vals):
+                    txt = U(val)
+                    if "active_set" not in txt:
+                        continue
+                    # index-valued: (a slice / component of) a call that enumerates or orders positions of the mask
+                    top = val
+                    while isinstance(top, ast.Subscript):
+                        top = top.value
+                    if not (np_call(top, "where", "nonzero", "flatnonzero", "argsort", "argwhere", "lexsort") or
+                            (isinstance(top, ast.Call) and isinstance(top.func, ast.Attribute) and top.func.attr in ("argsort", "nonzero"))):
+                        continue
+                    n += 1
+                    unstable = any(np_call(k, "argsort") and not any(kw.arg == "kind" and const_value(kw.value) in ("stable", "mergesort") for kw in k.keywords)
+                                   for k in ast.walk(val)) or any(isinstance(k, ast.Call) and isinstance(k.func, ast.Attribute) and k.func.attr == "argsort" and
+                                                                  not any(kw.arg == "kind" and const_value(kw.value) in ("stable", "mergesort") for kw in k.keywords) for k in ast.walk(val))
+                    if unstable:
+                        rep.fail("index-sets-ascending", m.qualname, short(st),
+                                 f"VIOLATED: `{t.id}` is obtained by an argsort without kind='stable' ({txt[:80]}); the order inside the active / inactive group is then unspecified, "
+                                 f"while the right-hand side is ordered by the ascending index sets", m.loc(st))
+                    elif canonical(val):
+                        rep.ok("index-sets-ascending", m.short, f"`{t.id}` = {txt[:70]} (ascending enumeration of the mask)")
+                    else:
+                        raise AnalysisError(f"{m.short}: index set `{t.id} = {txt[:80]}` is derived from the active set in an unrecognised way")
+    rep.pin("index sets derived from the active set", n, 8)
